@@ -1,13 +1,14 @@
 #!/bin/bash
-# tools/seed_verify.sh <ID> <A|B> <demo-dest-dir-relative-to-tree> "<go test command run in the tree>"
+# [SEED_ROOT=/tmp/seed2/out OUTL=C] tools/seed_verify.sh <ID> <A|B> <demo-dest-dir-relative-to-tree> "<go test command run in the tree>"
 # Confirms a seeded change independently: demo passes on the unchanged tree; with the change the tree builds,
 # the pinned suite passes and the demo fails. Leaves a scratch copy WITH the change at /root/scratch/seed_<ID><L>
 # (for tools/seed_check.sh) and records everything under /verif/seeded/<ID>-<L>/.
 set -u
 ID=$1; L=$2; DEST=$3; CMD=$4
-SRC=/tmp/seed/out/$ID
-OUT=/verif/seeded/$ID-$L
-S=/root/scratch/seed_$ID$L
+SRC=${SEED_ROOT:-/tmp/seed/out}/$ID
+OL=${OUTL:-$L}          # round 2 stores A/B of the second round as C/D
+OUT=/verif/seeded/$ID-$OL
+S=/root/scratch/seed_$ID$OL
 export GOFLAGS=-mod=mod GOPROXY=off GOSUMDB=off GOTOOLCHAIN=local
 rm -rf "$S"; mkdir -p /root/scratch "$OUT"
 git -C /repo worktree prune
@@ -16,7 +17,7 @@ put_demo() {
   if [ -d "$S/$DEST" ]; then EXISTED=1; else EXISTED=0; fi
   mkdir -p "$S/$DEST"
   COPIED=""
-  for f in "$SRC/$L.demo"/*; do [ "$(basename "$f")" = README ] || { cp -r "$f" "$S/$DEST/"; COPIED="$COPIED $(basename "$f")"; }; done
+  for f in "$SRC/$L.demo"/*; do case "$(basename "$f")" in README*) continue;; esac; true && { cp -r "$f" "$S/$DEST/"; COPIED="$COPIED $(basename "$f")"; }; done
   if [ "$DEST" != "." ] && [ -d "$S/$DEST/$(basename "$DEST")" ]; then cp -r "$S/$DEST/$(basename "$DEST")"/* "$S/$DEST/"; rm -rf "$S/$DEST/$(basename "$DEST")"; fi
 }
 del_demo() {
